@@ -95,4 +95,14 @@ CHECKS = {
         quick=dict(stages=[st(4000, timeout=900)]),
         thorough=dict(stages=[st(40000, shards=16, timeout=3000)]),
     ),
+    "C12": dict(
+        pkg="c12", level="exploration",
+        rule="rapid-generated cases for the eight constituent models (parameters in range; load/flow/volume series with zero-flow and near-empty steps forced: volume and outflow zero or below/above the 0.01 m^3 threshold together; initial stored masses 0 or >0, fine sediment also negative = fraction of capacity; both branches of each model), stepped one timestep at a time with carried states so that the stored mass after every step is visible; "
+             "oracle: per-step and whole-run budget stored_before + in*dt = out*dt + deposited/trapped/decayed/floodplain + stored_after within 1e-9 relative, the documented flush (working volume < 0.01 m^3: nothing leaves, stored mass dropped) as the only permitted loss, loads and in-stream stores >= 0 for non-negative inputs, remobilisation <= channel store, channel store = previous + reported net deposition. "
+             "Non-trivial = the run visits >= 2 branches of the model; distinct = distinct case",
+        assumptions=["forcing values below 1e-6 of the series scale are snapped to zero (a reach volume of 1e-300 m^3 overflows concentration = mass/volume; not data)",
+                     "StorageTrapAll has no timestep parameter: its budget is taken in the units it reports"],
+        quick=dict(stages=[st(4000, timeout=900)]),
+        thorough=dict(stages=[st(6000, shards=16, timeout=3000)]),
+    ),
 }
